@@ -352,6 +352,11 @@ func c19Universe() []litVal {
 		{"9223372036854775807", int64(math.MaxInt64)}, {"1.5", 1.5}, {"-2.75", -2.75}, {"1e300", 1e300}, {"0.0", 0.0},
 		{`""`, ""}, {`"12"`, "12"}, {`"-7"`, "-7"}, {`"1.5"`, "1.5"}, {`"1e3"`, "1e3"}, {`"abc"`, "abc"}, {`" 5"`, " 5"}, {`"0x10"`, "0x10"},
 		{`"true"`, "true"}, {`"9223372036854775808"`, "9223372036854775808"}, {`"é"`, "é"},
+		{`"9007199254740993"`, "9007199254740993"}, {`"9223372036854775807"`, "9223372036854775807"}, {`"-9223372036854775808"`, "-9223372036854775808"},
+		{`"1234567890123456789"`, "1234567890123456789"}, {`"+5"`, "+5"}, {`"007"`, "007"}, {`"1e18"`, "1e18"}, {`"-0"`, "-0"}, {`"0.1e1"`, "0.1e1"},
+		{`"12abc"`, "12abc"}, {`"1 2"`, "1 2"}, {`"٣"`, "٣"}, {`"a\tb"`, "a\tb"},
+		{"9007199254740993", int64(9007199254740993)}, {"4611686018427387905", int64(4611686018427387905)}, {"0.1", 0.1}, {"123456789.125", 123456789.125},
+		{"2.5e-7", 2.5e-7}, {"100000000000000000000.0", 1e20}, {"-0.0", math.Copysign(0, -1)},
 		{"[1, 2]", []interface{}{int64(1), int64(2)}}, {"[]", []interface{}{}}, {`{"a": 1}`, map[interface{}]interface{}{"a": int64(1)}},
 	}
 }
